@@ -287,7 +287,8 @@ def check(idx: Index, rep: Report, tier: str) -> str:
     loops = [w for w in walk_local(f.node) if isinstance(w, ast.For) and any(isinstance(s, ast.Assign) and unparse(s.targets[0]).startswith("value_mapper[") for s in w.body)]
     good = False
     for w in loops:
-        if isinstance(w.iter, ast.Call) and call_attr(w.iter) == "zip" and [unparse(a) for a in w.iter.args[:2]] == ["self.results", "cloned_op.results"]:
+        ret_names = {unparse(n.value) for n in walk_local(f.node) if isinstance(n, ast.Return) and isinstance(n.value, ast.Name)}
+        if isinstance(w.iter, ast.Call) and call_attr(w.iter) == "zip" and len(w.iter.args) >= 2 and unparse(w.iter.args[0]) == "self.results" and unparse(w.iter.args[1]) in {f"{rn}.results" for rn in ret_names}:
             names = [unparse(t) for t in w.target.elts]  # type: ignore[attr-defined]
             if any(unparse(s) == f"value_mapper[{names[0]}] = {names[1]}" for s in w.body):
                 head = cfg.node_of(w)
